@@ -89,9 +89,7 @@ def run(ctx):
         t.start()
         return t
 
-    vers = [(5, 5, ("basic", "enhanced")), (4, 4, ("basic",))]
-    if not quick:
-        vers.append((3, 4, ("basic",)))         # MQTT 3.1 on the wire, v3 rules in the model
+    vers = [(5, 5, ("basic", "enhanced")), (4, 4, ("basic",)), (3, 4, ("basic",))]    # (3, 4): MQTT 3.1 on the wire, v3 rules in the model
     par = 8 if quick else 6
     threads = [job("compose", lambda: hooks_lib.compose(ctx, permille=250 if quick else 1000, par=16)),
                job("connrate", lambda: hooks_lib.connack_rate(ctx, 600 if quick else 6000, par=8)),
@@ -99,7 +97,7 @@ def run(ctx):
                                                                 codes=codes))]
     big = (5, 4)[ctx.seed % 2]                  # quick: the seed picks the version that gets the deeper histories
     for wire, model, auth in vers:
-        d = (depth if wire == big else depth - 1) if quick else (depth if wire != 3 else 3)
+        d = ((depth if wire == big else depth - 1) if wire != 3 else 2) if quick else (depth if wire != 3 else 3)
         # While deviations are open most deep states lie behind a diverging step and cannot be established on the code in the
         # strict pass (they are skipped), so the strict pass stays one step shallower and the pass with the deviations on is the
         # one that covers the full depth.  Without open deviations the strict pass is the only one and goes to the full depth.
